@@ -165,9 +165,9 @@ def check_C13(chk, tier, seed):
         chk.validated += 1
         chk.count("tls-server-history")
         f = dict(x.split("=", 1) for x in im.split()[1:] if "=" in x) if im.startswith("TLSHIST") else {}
-        if (f.get("first"), f.get("after_bad_peers")) != ("ok", "ok"):
+        if (f.get("first"), f.get("after_bad_peers")) != ("ok", "ok") or f.get("same_connection_later") not in ("ok", "not-run"):
             chk.violation("a verifying client with a trusted, matching server was not served by a TLS server that had been idle / had seen other peers fail at "
-                          "connection setup before (what a connection gets must depend on the configuration alone): " + short(im, 200), dict(case=c, impl=short(im)))
+                          "connection setup before, or its connection was cut after it had been open for a while (what a connection gets must depend on the configuration alone): " + short(im, 200), dict(case=c, impl=short(im)))
     pcases = [f"TLSPLAIN match {xb(f)}" for (_, f) in firsts] + ["TLSROT"]
     pimpl = core.run_sharded([eng.harness, "codec"], eng.prelude, pcases, shards=8, timeout=300, env=NET_ENV)
     for (name, _), c, im in zip(firsts, pcases, pimpl):
@@ -230,7 +230,7 @@ def check_C13(chk, tier, seed):
                        "timeouts: 2.5 s to connect, 2.5 s for the answer, on loopback"]
 
 
-FAULTS = ["announce-leave", "malformed", "oversized", "zero-length", "stall-midframe", "stall-setup", "garbage-setup", "reset", "reset-midframe", "handler-panic", "handler-panic-sync", "handler-panic-fmt", "handler-panic-unwrap", "vanish-before-answer", "deep-nesting", "vendor-zero", "nest-30"]
+FAULTS = ["announce-leave", "malformed", "oversized", "zero-length", "stall-midframe", "stall-setup", "garbage-setup", "reset", "reset-midframe", "handler-panic", "handler-panic-sync", "handler-panic-fmt", "handler-panic-unwrap", "vanish-before-answer", "deep-nesting", "vendor-zero", "nest-30", "announce-stall", "exact-1mib"]
 
 
 def check_C10(chk, tier, seed):
@@ -250,6 +250,15 @@ def check_C10(chk, tier, seed):
     # (whatever the server sets aside per half-received frame must be given back when the connection goes away)
     for tls in (0, 1):
         cases.append(f"NET {tls} 2 3 {hx(rng.below(1 << 32))} 72 " + " ".join(["announce-leave"] * 72))
+    # far more peers than any pool of handshake slots, frame budgets or connection counters a server might keep: 70 peers stuck before
+    # their TLS handshake at once; 6 peers each half-way through a 1 MiB frame; 20 peers in a row that fail their TLS handshake; 1100
+    # connections in a row that end with an error - the well-behaved clients are served all the same
+    cases.append(f"NET 1 2 3 {hx(rng.below(1 << 32))} 70 " + " ".join(["stall-setup"] * 70))
+    cases.append(f"NET 0 2 3 {hx(rng.below(1 << 32))} 70 " + " ".join(["stall-setup"] * 70))
+    for tls in (0, 1):
+        cases.append(f"NET {tls} 3 3 {hx(rng.below(1 << 32))} 6 " + " ".join(["announce-stall"] * 6))
+    cases.append(f"NET 1 2 3 {hx(rng.below(1 << 32))} 20 " + " ".join(["garbage-setup"] * 20))
+    cases.append(f"NET 0 2 3 {hx(rng.below(1 << 32))} 1100 " + " ".join(["malformed"] * 1100))
     # many peers in a row whose request makes the handler panic (more than any fixed pool of handler workers a server might
     # keep: a worker lost to a panic must not be lost for good)
     for tls in (0, 1):
